@@ -441,6 +441,15 @@ LIST_CASES = [      # (plain, written with braces / calls, expected visits)
     ('define q_m 5 println q_m', 'define q_m {5} println q_m', [5]),
     ('define q_m "A" on q_m println q_m', 'define q_m {"A"} on q_m println q_m',
      ['A']),
+    # ... round a setting that is the count of a loop
+    ('brightness 3 repeat brightness begin print 1 end println 0',
+     'brightness 3 repeat {brightness} begin print 1 end println 0',
+     [1, 1, 1, 0]),
+    ('brightness 2 repeat B begin print 1 end println 0',
+     'brightness 2 repeat {B} begin print 1 end println 0', [1, 1, 0]),
+    ('hue 2 repeat hue with q_i from 1 to 2 print q_i println 0',
+     'hue 2 repeat {hue} with q_i from 1 to 2 print q_i println 0',
+     [1, 2, 0]),
     # ... and round a negative number, wherever a bare one can be written
     ('define q_m -5 println q_m', 'define q_m {-5} println q_m', [-5]),
     ('define q_m -2.5 println q_m', 'define q_m {-2.5} println q_m', [-2.5]),
